@@ -272,6 +272,15 @@ def validFn (σ : String → String) (N : List String) (f g : Fn) : Bool :=
   injOn σ N && inE N f.body && f.params.all (fun p => N.contains p.1) &&
   cfE f.body && scE (fun x => σ x != x) [] f.body
 
+/-- the lookup `Sem.eval` performs in the table of trait implementations -/
+def implPred (tr key m : String) (i : String × String × String × String) : Bool :=
+  i.1 == tr && i.2.1 == key && i.2.2.1 == m
+
+/-- the two tables answer every lookup alike (their order may differ: the two pipelines visit the
+    packages in different topological orders) -/
+def implsAgree (A B : List (String × String × String × String)) : Bool :=
+  (A ++ B).all fun i => A.find? (implPred i.1 i.2.1 i.2.2.1) == B.find? (implPred i.1 i.2.1 i.2.2.1)
+
 /-- the validator: every function of `S` has a renamed twin in `W` and `W` has no other function -/
 def validate (σs : String → String → String) (Ns : String → List String) (S W : Prog) : Bool :=
   S.fns.all (fun f =>
@@ -279,7 +288,7 @@ def validate (σs : String → String → String) (Ns : String → List String) 
     | some fS, some fW => validFn (σs f.name) (Ns f.name) fS fW
     | _, _ => false) &&
   W.fns.all (fun g => (S.findFn g.name).isSome) &&
-  S.impls == W.impls
+  implsAgree W.impls S.impls
 
 /-! ## structural equality (the IR types derive no `BEq`) -/
 
